@@ -259,7 +259,7 @@ def gen_malformed(rng: random.Random) -> str:
     if kind < 0.5:
         return "".join(rng.choice(MALFORMED_ALPHA) for _ in range(rng.choice([1, 5, 20, 60, 200])))
     if kind < 0.7:
-        tok = rng.choice(["*", "_", "`", "[", "(", "<", ">", "#", "- ", "> ", "|", "~", "\\", "{%", "<!--", "![", "](", "1. ", "\t", "**a", "[a](", "``"])
+        tok = rng.choice(["*", "_", "`", "[", "(", "<", ">", "#", "- ", "> ", "|", "~", "\\", "{%", "<!--", "![", "](", "1. ", "\t", "**a", "[a](", "``", "[^", "[^\n", "]: ", "[^a]: "])
         reps = rng.choice([1, 3, 10, 40])
         if tok.strip() in (">", "-", "1.", "*", "+") :
             reps = min(reps, 10)     # container nesting: Marko's parse time doubles per level (C12 watchdog covers it)
